@@ -1,0 +1,26 @@
+//go:build verif
+
+package slayers
+
+// Verification hooks (build tag `verif` only): export the unexported checksum helpers so that
+// the /verif harness can compare each of them with its Lean model. No behaviour is added.
+
+// VerifComputeChecksum is SCION.computeChecksum.
+func (s *SCION) VerifComputeChecksum(upperLayer []byte, protocol uint8) (uint16, error) {
+	return s.computeChecksum(upperLayer, protocol)
+}
+
+// VerifPseudoHeaderChecksum is SCION.pseudoHeaderChecksum.
+func (s *SCION) VerifPseudoHeaderChecksum(length int, protocol uint8) (uint32, error) {
+	return s.pseudoHeaderChecksum(length, protocol)
+}
+
+// VerifUpperLayerChecksum is SCION.upperLayerChecksum.
+func (s *SCION) VerifUpperLayerChecksum(upperLayer []byte, csum uint32) uint32 {
+	return s.upperLayerChecksum(upperLayer, csum)
+}
+
+// VerifFoldChecksum is SCION.foldChecksum.
+func (s *SCION) VerifFoldChecksum(csum uint32) uint16 {
+	return s.foldChecksum(csum)
+}
